@@ -863,10 +863,17 @@ def q11(rep):
             if not labs:
                 continue
             guards = set()
-            for st in g["stmts"]:
-                if st["k"] == "IfStmt" and st["c"][1] is not None and st["c"][1]["k"] == "BreakStmt":
+            for st in [y_ for top in g["stmts"] for y_ in walk(top)]:
+                then_ = st["c"][1] if st["k"] == "IfStmt" else None
+                while then_ is not None and then_["k"] == "CompoundStmt" and len(then_["c"]) == 1:
+                    then_ = then_["c"][0]
+                if st["k"] == "IfStmt" and then_ is not None and then_["k"] == "BreakStmt":
                     for y in walk(st["c"][0]):
                         if y["k"] == "BinaryOperator" and y["op"] == "==" and const_value(y["c"][1]) == 0:
+                            guards.add(render(strip(y["c"][0])))
+                        elif y["k"] == "BinaryOperator" and y["op"] == "==" and const_value(y["c"][0]) == 0:
+                            guards.add(render(strip(y["c"][1])))
+                        elif y["k"] == "UnaryOperator" and y["op"] == "!":
                             guards.add(render(strip(y["c"][0])))
             for st in g["stmts"]:
                 for x in walk(st):
@@ -875,7 +882,7 @@ def q11(rep):
                         cv = const_value(d)
                         if cv is not None and cv != 0:
                             continue
-                        n += 1
+                        n += len(labs)                 # one body may serve several builtins (case labels sharing it)
                         key = "fold-divisor-nonzero:%s" % labs[0][len("FOAM_BVal_"):]
                         if render(d) in guards:
                             rep.ok("Q11", key)
